@@ -1,6 +1,6 @@
 SPECIFICATION KSpec
 CONSTANTS
-  NL = 3
+  NL = 2
   NW = 1
   NT = 3
   NG = 3
@@ -8,7 +8,7 @@ CONSTANTS
   WIds = {5, 6}
   LMode = "mixed"
   ECodes = {0, 1}
-  TCodes = {111,123,321,212}
+  TCodes = {11,12,21,33}
   QuadIds = {1}
   ClampE = 15
   SlackE = 14
